@@ -261,6 +261,124 @@ impl Node {
             hook::recv_subscriptions(&mut self.gs, &p, &subs);
         }
     }
+    fn connect(&mut self, outbound: bool) -> Option<PeerId> {
+        let i = self.peers.len();
+        if i >= 250 {
+            return None;
+        }
+        let p = hcore::peer(i as u8);
+        hook::add_peer(&mut self.gs, p, i, outbound, true);
+        self.peers.push(p);
+        Some(p)
+    }
+    fn in_mesh(&self, t: usize, p: &PeerId) -> bool {
+        self.gs.mesh_peers(&th(t)).any(|x| x == p)
+    }
+    /// a mesh member of topic `t`: subscribes (the behaviour adds it itself while the mesh is below
+    /// mesh_n_low), otherwise GRAFTs (accepted while the mesh is below mesh_n_high)
+    fn member(&mut self, t: usize, outbound: bool) -> Option<PeerId> {
+        let p = self.connect(outbound)?;
+        hook::recv_subscriptions(&mut self.gs, &p, &[(true, th(t))]);
+        if !self.in_mesh(t, &p) {
+            hook::recv_graft(&mut self.gs, &p, vec![th(t)]);
+        }
+        Some(p)
+    }
+    /// A designed peer population for one subscribed topic: `k_in` inbound / `k_out` outbound mesh
+    /// members and `c_in` / `c_out` candidates outside the mesh (connected, subscribed, gossipsub,
+    /// not explicit, not backed off), with the mesh under-full / exactly full / over-full relative
+    /// to the topic's parameter set.  An under-full mesh WITH candidates outside is reached the way
+    /// it is in operation: filler members keep the mesh at mesh_n_low while the candidates
+    /// subscribe, then the fillers unsubscribe.
+    fn populate(&mut self, rng: &mut Rng, t: usize, cfg: &Config) {
+        let h = th(t);
+        let (n, low, high) = (cfg.mesh_n_for_topic(&h), cfg.mesh_n_low_for_topic(&h), cfg.mesh_n_high_for_topic(&h));
+        let targets = [
+            0,
+            low.saturating_sub(1),
+            low.saturating_sub(1),
+            low,
+            n.saturating_sub(1),
+            n,
+            high.saturating_sub(1),
+            high,
+            rng.usize(high + 2),
+        ];
+        let len = (*rng.pick(&targets)).min(high).min(16);
+        let k_out = match rng.below(5) {
+            0 | 1 => 0,
+            2 => len,
+            _ => rng.usize(len + 1),
+        };
+        let k_in = len - k_out;
+        let fillers = if len < low { (low - len + rng.usize(2)).min(high.saturating_sub(len)).min(16) } else { 0 };
+        let mut order: Vec<bool> = vec![false; k_in];
+        order.extend(vec![true; k_out]);
+        rng.shuffle(&mut order);
+        let mut filler_ids = vec![];
+        // fillers first, so that the designed members are GRAFTed in whatever the mesh size
+        for _ in 0..fillers {
+            if let Some(p) = self.member(t, false) {
+                filler_ids.push(p);
+            }
+        }
+        for ob in order {
+            self.member(t, ob);
+        }
+        let c_in = *rng.pick(&[0usize, 0, 1, 2, 3, 5]);
+        let c_out = *rng.pick(&[0usize, 0, 1, 2, 2, 3, 5]);
+        let mut cands: Vec<bool> = vec![false; c_in];
+        cands.extend(vec![true; c_out]);
+        rng.shuffle(&mut cands);
+        for ob in cands {
+            if let Some(p) = self.connect(ob) {
+                hook::recv_subscriptions(&mut self.gs, &p, &[(true, h.clone())]);
+                if self.sc.varied_scores && rng.chance(1, 5) {
+                    self.gs.set_application_score(&p, -1.0);
+                }
+            }
+        }
+        for p in filler_ids {
+            hook::recv_subscriptions(&mut self.gs, &p, &[(false, h.clone())]);
+        }
+        if self.sc.varied_scores {
+            let members: Vec<PeerId> = self.gs.mesh_peers(&h).copied().collect();
+            for p in members {
+                if rng.chance(1, 5) {
+                    self.gs.set_application_score(&p, *rng.pick(&[-2.0f64, 1.0, 3.0]));
+                }
+            }
+        }
+    }
+    /// between two heartbeats of a designed population: members leave (mesh under-full again),
+    /// new candidates and members arrive
+    fn pop_churn(&mut self, rng: &mut Rng, topics: &[usize]) {
+        for &t in topics {
+            let h = th(t);
+            let members: Vec<PeerId> = self.gs.mesh_peers(&h).copied().collect();
+            let leave = match rng.below(4) {
+                0 => 0,
+                1 => 1,
+                2 => 2,
+                _ => rng.usize(members.len() + 1),
+            };
+            let mut m = members.clone();
+            rng.shuffle(&mut m);
+            for p in m.iter().take(leave) {
+                hook::recv_subscriptions(&mut self.gs, p, &[(false, h.clone())]);
+            }
+            for _ in 0..rng.usize(4) {
+                let ob = rng.chance(2, 3);
+                if let Some(p) = self.connect(ob) {
+                    hook::recv_subscriptions(&mut self.gs, &p, &[(true, h.clone())]);
+                }
+            }
+            if rng.chance(1, 3) {
+                let ob = rng.bool();
+                self.member(t, ob);
+            }
+        }
+    }
     /// random traffic between heartbeats
     fn churn(&mut self, rng: &mut Rng, graft_p: u64) {
         for i in 0..self.peers.len() {
@@ -408,7 +526,8 @@ fn heartbeat(node: &mut Node, cfg: &Config, out: &mut Out) -> bool {
 }
 
 /// run one case: builder sequence, then (maybe) the peer scenario and `max_hb` heartbeats
-fn run_case(out: &mut Out, idx: u64, class: &str, setters: &[Setter], sc_seed: u64, with_hb: bool, unchecked: bool, max_hb: Option<usize>, with_build: bool) {
+#[allow(clippy::too_many_arguments)]
+fn run_case(out: &mut Out, idx: u64, class: &str, setters: &[Setter], sc_seed: u64, with_hb: bool, unchecked: bool, max_hb: Option<usize>, with_build: bool, pop: bool) {
     let mut rng = Rng::for_case(sc_seed, 0);
     let sc = scenario(&mut rng);
     let mut b = ConfigBuilder::default();
@@ -417,7 +536,7 @@ fn run_case(out: &mut Out, idx: u64, class: &str, setters: &[Setter], sc_seed: u
     }
     let built = b.build();
     let nt = !setters.is_empty();
-    out.case(idx, &format!("{class} nt={} sc={sc_seed} hb={} un={}", nt as u8, with_hb as u8, unchecked as u8));
+    out.case(idx, &format!("{class} nt={} sc={sc_seed} hb={} un={} pop={}", nt as u8, with_hb as u8, unchecked as u8, pop as u8));
     if with_build {
         // the error kind is also the oracle for the HashMap iteration order of build's topic loop
         let orc = match &built {
@@ -456,19 +575,36 @@ fn run_case(out: &mut Out, idx: u64, class: &str, setters: &[Setter], sc_seed: u
             let subscribed = sc.subscribed.clone();
             let (n_peers, n_hb) = (sc.n_peers, sc.heartbeats);
             let mut node = Node { gs, peers: vec![], sc };
+            let subscribed = if pop && subscribed.is_empty() { vec![0] } else { subscribed };
             let setup = hcore::guarded(|| {
                 for t in &subscribed {
                     let _ = node.gs.subscribe(&topic(*t));
                 }
-                for _ in 0..n_peers {
-                    node.add_peer(&mut rng);
+                if pop {
+                    for t in &subscribed {
+                        node.populate(&mut rng, *t, &cfg);
+                    }
+                } else {
+                    for _ in 0..n_peers {
+                        node.add_peer(&mut rng);
+                    }
+                    node.churn(&mut rng, 6);
                 }
-                node.churn(&mut rng, 6);
             });
             if setup.is_ok() {
                 for k in 0..max_hb.unwrap_or(n_hb).min(n_hb) {
                     if k > 0 {
-                        if hcore::guarded(|| node.churn(&mut rng, 3)).is_err() {
+                        let r = if pop {
+                            hcore::guarded(|| {
+                                node.pop_churn(&mut rng, &subscribed);
+                                if rng.chance(1, 4) {
+                                    node.churn(&mut rng, 1);
+                                }
+                            })
+                        } else {
+                            hcore::guarded(|| node.churn(&mut rng, 3))
+                        };
+                        if r.is_err() {
                             break;
                         }
                     }
@@ -567,23 +703,24 @@ pub fn run(args: &Args, out: &mut Out) {
             };
             let n_hb = ops.iter().filter(|o| o[0] == "hb").count();
             // a replay without the build op still needs a behaviour: use the (default-config) builder
-            run_case(out, i as u64, "replay", &setters, sc_seed, n_hb > 0, unchecked, Some(n_hb), build_op.is_some());
+            let pop = get("pop=").unwrap_or(0) == 1;
+            run_case(out, i as u64, "replay", &setters, sc_seed, n_hb > 0, unchecked, Some(n_hb), build_op.is_some(), pop);
         }
         return;
     }
     let all = all_setters();
     let mut idx = 0u64;
     // bounded-exhaustive builder sequences (no heartbeat): length ≤ 1 always, length 2 in the thorough tier
-    run_case(out, idx, "exh0", &[], 0, false, false, None, true);
+    run_case(out, idx, "exh0", &[], 0, false, false, None, true, false);
     idx += 1;
     for s in &all {
-        run_case(out, idx, "exh1", std::slice::from_ref(s), 0, false, false, None, true);
+        run_case(out, idx, "exh1", std::slice::from_ref(s), 0, false, false, None, true, false);
         idx += 1;
     }
     if args.thorough && args.count == 0 {
         for a in &all {
             for b in &all {
-                run_case(out, idx, "exh2", &[a.clone(), b.clone()], 0, false, false, None, true);
+                run_case(out, idx, "exh2", &[a.clone(), b.clone()], 0, false, false, None, true, false);
                 idx += 1;
             }
         }
@@ -595,7 +732,64 @@ pub fn run(args: &Args, out: &mut Out) {
         let sc_seed = rng.next_u64() >> 16;
         let unchecked = rng.chance(1, 4);
         let class = if unchecked { "unchecked" } else { "checked" };
-        run_case(out, idx, class, &setters, sc_seed, true, unchecked, None, true);
+        run_case(out, idx, class, &setters, sc_seed, true, unchecked, None, true, false);
         idx += 1;
     }
+    // designed peer populations on VALID (often tight) parameter sets
+    for i in 0..(n / 2).max(1) {
+        let mut rng = Rng::for_case(args.seed ^ 0x9090_C34, i);
+        let setters = gen_valid_tight(&mut rng);
+        let sc_seed = rng.next_u64() >> 16;
+        run_case(out, idx, "pop", &setters, sc_seed, true, false, None, true, true);
+        idx += 1;
+    }
+}
+
+/// a VALID parameter set, preferably tight: mesh_n_low = mesh_n, mesh_n = mesh_n_high,
+/// mesh_outbound_min at the maximum the validation allows (min(mesh_n_low, mesh_n / 2))
+fn tight(rng: &mut Rng) -> [usize; 4] {
+    let n = *rng.pick(&[0usize, 1, 2, 3, 4, 4, 5, 6, 6, 8]);
+    let low = match rng.below(3) {
+        0 | 1 => n,
+        _ => n - rng.usize(n.min(2) + 1),
+    };
+    let high = match rng.below(3) {
+        0 => n,
+        1 => n + 1,
+        _ => n + rng.usize(6),
+    };
+    let out_max = low.min(n / 2);
+    let out = match rng.below(4) {
+        0 | 1 => out_max,
+        2 => out_max.saturating_sub(1),
+        _ => rng.usize(out_max + 1),
+    };
+    [n, low, high, out]
+}
+
+fn gen_valid_tight(rng: &mut Rng) -> Vec<Setter> {
+    let mut v = vec![];
+    let p = if rng.chance(1, 6) { [6, 5, 12, 2] } else { tight(rng) };
+    // set high first so that no intermediate state matters (only the final state is built)
+    v.push(Setter::High(p[2]));
+    v.push(Setter::N(p[0]));
+    v.push(Setter::Low(p[1]));
+    v.push(Setter::Out(p[3]));
+    for t in 0..NTOPICS {
+        if rng.chance(2, 3) {
+            let q = tight(rng);
+            if rng.bool() {
+                v.push(Setter::CfgT(t, q));
+            } else {
+                v.push(Setter::HighT(t, q[2]));
+                v.push(Setter::NT(t, q[0]));
+                v.push(Setter::LowT(t, q[1]));
+                v.push(Setter::OutT(t, q[3]));
+            }
+            if rng.bool() {
+                v.push(Setter::MtsT(t, *rng.pick(&[100usize, 65536])));
+            }
+        }
+    }
+    v
 }
